@@ -454,7 +454,7 @@ class Phase(Angle):
             neg = (count + frac) < 0
             if neg:
                 count = -count
-                frac = -frac
+                frac = 0.0 - frac  # not -frac: a fraction of -0.0 would print as "-0.000"
                 sign = "-"
             elif alwayssign:
                 sign = "+"
